@@ -103,7 +103,7 @@ def generate(rng, tier):
         n = rng.randrange(1, 6 if big else 5)
         sizes = [rng.randrange(1, W + 1) for _ in range(n)]
         if rng.random() < 0.25:  # the roll width need not be an integer (piece sizes and demands are)
-            W = W + rng.choice([0.25, 0.5, 0.75, 0.9, 0.99])
+            W = W + rng.choice([0.25, 0.5, 0.75, 0.9, 0.99, 0.995, 0.996, 0.999, 0.9999, 0.004, 0.005, 0.125, 0.375, 0.001])
         dmax = rng.choice([2, 4, 6, 8]) if n <= 3 else (rng.choice([2, 4, 6]) if n == 4 else rng.choice([2, 3]))
         demands = [rng.randrange(0, dmax + 1) for _ in range(n)]
         if rng.random() < 0.03:
@@ -149,9 +149,27 @@ def generate(rng, tier):
                 uni, init = units + extra, [list(u) for u in units]
         case.update({"mode": "custom", "demands": demands, "universe": uni, "initial": init,
                      "peer": rng.choice(["best", "best", "first_improving", "worst_improving", "always_best"])})
+    if case["mode"] == "custom" and case["solver"] == "bp" and rng.random() < 0.3:
+        # a fixed pool of rich columns, handed over completely, with a pricing function that offers nothing more:
+        # every node LP is exact, so every OPTIMAL is a claimed proof; deep trees with integer nodes next to open siblings
+        m = rng.randrange(2, 5)
+        demands = [rng.randrange(0, 7) for _ in range(m)]
+        pool = []
+        for _ in range(rng.randrange(1, 9)):
+            c = [rng.choice([0, 0, 1, 1, 2, 3, 5]) for _ in range(m)]
+            if any(c) and c not in pool:
+                pool.append(c)
+        for j in range(m):
+            if not any(c[j] for c in pool):
+                c = [0] * m
+                c[j] = rng.choice([1, 2, 3])
+                pool.append(c)
+        case.update({"demands": demands, "universe": pool, "initial": [list(c) for c in pool], "peer": "fixed_pool"})
     case["max_nodes"] = rng.choice([50, 200]) if case["solver"] == "bp" else None
     if case["mode"] == "custom" and rng.random() < 0.3:
         case["initial"] = [list(c) for c in case["universe"]]  # the complete column set is handed over up front
+        if rng.random() < 0.5:
+            case["peer"] = "fixed_pool"  # ... and the pricing function knows it: there is no further column, ever
     if case["mode"] == "stock" and rng.random() < 0.3:
         # the caller edits its own size / demand lists in place and solves again with the same list objects
         k = rng.randrange(len(case["sizes"]))
@@ -196,6 +214,8 @@ def make_peer(case, stats, clock):
     def pricing(duals):
         stats["pricing_calls"] += 1
         clock.on_eval()
+        if kind == "fixed_pool":
+            return None, 0.0
         scored = [(1.0 - sum(d * a for d, a in zip(duals, c)), c) for c in uni]
         imp = [(rc, c) for rc, c in scored if rc < -1e-7]
         if not imp:
@@ -333,7 +353,9 @@ def execute(case) -> Outcome:
         pats = maximal_patterns(case["W"], case["sizes"], case["demands"])
         opt = cover_min(pats, case["demands"])
     else:
-        opt = cover_min([tuple(c) for c in case["universe"]], case["demands"])
+        # a pricing function that never offers anything defines the explicit column set as the columns handed over
+        pool = case["initial"] if case.get("peer") == "fixed_pool" else case["universe"]
+        opt = cover_min([tuple(c) for c in pool], case["demands"])
     base = run_variant(case, {"kind": "never"})
     judge(case, base, o, "baseline", opt, False, "none")
     summ = [["base", _s(base)]]
